@@ -80,7 +80,13 @@ let ev_str = function
   | EFlag f -> "f" ^ bin_of_z f
   | ESleep d -> "s" ^ bin_of_z d
 
+exception Timeout
+
 let () =
+  (* per-program CPU limit: the depth-first search can take exponential time on programs that
+     keep re-entering speculation; a timeout is reported like exhausted fuel (no verdict) *)
+  let limit = try float_of_string (Sys.getenv "HIDVM_TIMEOUT") with _ -> 20.0 in
+  Sys.set_signal Sys.sigvtalrm (Sys.Signal_handle (fun _ -> raise Timeout));
   let id = ref "" and w = ref Z0 and st = ref [] and cn = ref [] and code = ref [] and watch = ref [] in
   (try
     while true do
@@ -96,7 +102,10 @@ let () =
       | "T" :: l -> watch := List.map z_of_bin l
       | "R" :: [f] ->
           let fuel = nat_of_int (int_of_string f) O in
-          let res = run_program !w !st !cn (List.rev !code) !watch mon_none fuel in
+          let arm t = ignore (Unix.setitimer Unix.ITIMER_VIRTUAL { Unix.it_interval = 0.0; Unix.it_value = t }) in
+          let res = (try arm limit; let r = run_program !w !st !cn (List.rev !code) !watch mon_none fuel in arm 0.0; r
+                     with Timeout -> arm 0.0; OFuel ([], [])
+                        | Stack_overflow -> arm 0.0; OFuel ([], [])) in
           let snap_str (s : state) =
             bin_of_z s.pc ^ ":" ^ bin_of_z (lw !w s.mm Z0) ^ ":" ^ bin_of_z (lw !w s.mm !w) in
           let out kind pcs evs snaps =
